@@ -4,7 +4,7 @@ import re
 from tools.vlib import *
 
 PID = "C05"
-READY = False
+READY = True
 MANIFEST = {
     "level_text": "Lean 4 theorems about a model of the node's expiry bookkeeping (chunk store x provider locators x routing table x key-share "
                   "table x manifest cache x swarm plans x notification queue; the chunk-store, locator and routing parts are the models proved "
